@@ -306,6 +306,20 @@ def _nnf(e, neg=False):
   return ast.UnaryOp(op=ast.Not(), operand=e) if neg else e
 
 
+def _canon_while(s):
+  """`while True: if not C: break; BODY` is `while C: BODY` (no else clause): the second form is
+  the canonical one, so that both spellings find the same invariant."""
+  if not (isinstance(s.test, ast.Constant) and s.test.value is True and not s.orelse and s.body):
+    return s
+  g = s.body[0]
+  if not (isinstance(g, ast.If) and not g.orelse and len(g.body) == 1 and
+          isinstance(g.body[0], ast.Break)):
+    return s
+  cond = _nnf(g.test, neg=True)
+  new = ast.While(test=cond, body=s.body[1:] or [ast.Pass()], orelse=[])
+  return ast.fix_missing_locations(ast.copy_location(new, s))
+
+
 def _loop_key(text):
   """Normal form of a loop header used to find its invariant: spellings that denote the same
   iteration are identified (x[::-1] / reversed(x); `while xs` / `while len(xs) > 0`; De Morgan
@@ -994,6 +1008,7 @@ class Executor:
 
   def st_While(self, s):
     n = self.ordinal('loop', s)
+    s = _canon_while(s)
     spec = self.loop_spec(s, n)
     if spec is None:
       self.oos(f'while loop #{n} has no invariant', s)
@@ -1001,6 +1016,7 @@ class Executor:
 
   def st_For(self, s):
     n = self.ordinal('loop', s) if self.depth == 0 else None
+    s = self.canon_for(s)
     spec = self.loop_spec(s, n)
     it = self.ev_iter(s.iter)
     if isinstance(it, list):          # concrete sequence: unroll
@@ -1009,6 +1025,29 @@ class Executor:
     if spec is None:
       self.oos(f'for loop #{n} over a symbolic collection has no invariant', s)
     self.cut_loop(s, n, spec, it)
+
+  def canon_for(self, s):
+    """`for k in d: v = d[k]; ...` over a dict is the same iteration as
+    `for k, v in d.items(): ...` (d is not rebound or mutated by the first statement); the
+    second spelling is the canonical one, so that both find the same invariant."""
+    if not (isinstance(s.target, ast.Name) and isinstance(s.iter, ast.Name) and s.body):
+      return s
+    st = s.body[0]
+    if not (isinstance(st, ast.Assign) and len(st.targets) == 1 and
+            isinstance(st.targets[0], ast.Name) and isinstance(st.value, ast.Subscript) and
+            isinstance(st.value.value, ast.Name) and st.value.value.id == s.iter.id and
+            isinstance(st.value.slice, ast.Name) and st.value.slice.id == s.target.id and
+            st.targets[0].id not in (s.target.id, s.iter.id)):
+      return s
+    d = self.frame.env.get(s.iter.id, self.G.get(s.iter.id))
+    if not isinstance(d, VDict):
+      return s
+    new = ast.For(
+        target=ast.Tuple(elts=[s.target, st.targets[0]], ctx=ast.Store()),
+        iter=ast.Call(func=ast.Attribute(value=s.iter, attr='items', ctx=ast.Load()),
+                      args=[], keywords=[]),
+        body=s.body[1:] or [ast.Pass()], orelse=s.orelse)
+    return ast.fix_missing_locations(ast.copy_location(new, s))
 
   def unrolled_for(self, s, items):
     broke = False
@@ -1040,6 +1079,7 @@ class Executor:
       if z3.is_int_value(n) and n.as_long() <= 8:
         return [v.get(i) for i in range(n.as_long())]
       it = Iter(v.len, lambda i: v.get(i))
+      it.lst = v                      # the list iterated over (for invariants: no local name needed)
       for a in ('keys', 'idx', 'dict'):          # a list made from a dict keeps its key index
         if hasattr(v, 'dict_' + a):
           setattr(it, a, getattr(v, 'dict_' + a))
@@ -1349,7 +1389,18 @@ class Executor:
     if all(isinstance(k, ast.Constant) and isinstance(k.value, str) for k in node.keys):
       # a literal dispatch table: concrete keys, arbitrary values
       return VPy('dictlit', {k.value: self.ev(v) for k, v in zip(node.keys, node.values)})
-    self.oos('non-empty dict display', node)
+    # a display with computed keys: a fresh dict, items inserted left to right
+    ks = [self.ev(k) for k in node.keys if k is not None]
+    if len(ks) != len(node.keys):
+      self.oos('dict display with ** unpacking', node)
+    vs = [self.ev(v) for v in node.values]
+    kk, vk = kind_of(ks[0]), kind_of(vs[0])
+    if isinstance(ks[0], (VPy, VNone)) or isinstance(vs[0], (VPy, VNone)):
+      self.oos('non-empty dict display', node)
+    d = KDict(kk, vk).empty()
+    for k, v in zip(ks, vs):
+      d.set(coerce(k, kk), coerce(v, vk))
+    return d
 
   def ex_JoinedStr(self, node):
     parts = []
